@@ -834,7 +834,7 @@ Definition ex_sel : Selector.selector :=
                  [Selector.WS (s " ")].
 Definition ex_decl : decl :=
   mkDecl (s "color") 0 1 (TmIdent (s "red"))
-         [(SepSp 2, TmFunc (s "f") 3 (TmNum (mkNum 2 (s "1") (Some (s "50")))) [(true, 4, 5, TmStr 6 (s "x;}"))] 7);
+         [(SepSp 2, TmFunc (s "f") 3 (TmNum (mkNum 2 (s "1") (Some (s "50")))) [(1, 4, 5, TmStr 6 (s "x;}")); (2, 4, 5, TmIdent (s "b"))] 7);
           (SepSlash 8 9, TmCalc 10 11 (CtD (mkNum 0 (s "1") None) (s "px")) [(OAdd, 12, 13, CtP (mkNum 0 (s "2") None))] 14)]
          15 (Some (16, 17)).
 Definition ex_decl2 : decl := mkDecl (s "Width") 18 19 (TmUrl 20 (s "a.png")) [] 21 None.
